@@ -89,21 +89,26 @@ def _pull_path_namespace(
         source_qs = [squery]
 
     for source_q in source_qs:
-        s_paths: Set[Tuple[irast.PathId, pgce.PathAspect]] = set()
+        # An insertion-ordered "set": when two paths map to the same path id
+        # below, which one provides the range var must not depend on hash
+        # order (the emitted SQL would differ from one process to the next).
+        s_paths: dict[Tuple[irast.PathId, pgce.PathAspect], None] = {}
         if flavor == 'normal':
             if hasattr(source_q, 'path_outputs'):
-                s_paths.update(source_q.path_outputs)
+                s_paths.update(dict.fromkeys(source_q.path_outputs))
             if hasattr(source_q, 'path_namespace'):
-                s_paths.update(source_q.path_namespace)
+                s_paths.update(dict.fromkeys(source_q.path_namespace))
             if isinstance(source_q, pgast.Query):
-                s_paths.update(source_q.path_rvar_map)
+                s_paths.update(dict.fromkeys(source_q.path_rvar_map))
         elif flavor == 'packed':
             if hasattr(source_q, 'packed_path_outputs'):
                 if source_q.packed_path_outputs:
-                    s_paths.update(source_q.packed_path_outputs)
+                    s_paths.update(
+                        dict.fromkeys(source_q.packed_path_outputs))
             if isinstance(source_q, pgast.Query):
                 if source_q.path_packed_rvar_map:
-                    s_paths.update(source_q.path_packed_rvar_map)
+                    s_paths.update(
+                        dict.fromkeys(source_q.path_packed_rvar_map))
         else:
             raise AssertionError(f'unexpected flavor "{flavor}"')
 
